@@ -30,7 +30,8 @@ def spec(tier):
             "group-specific terms; frames of 2..40 rows, a quarter with hostile level names) x 6 shadow "
             "transformations each (row permutation with and without index reset, one of five index relabellings, "
             "column reorder, unused columns added, unused columns removed); fitted parameters compared through "
-            "evaluate_new_data on a fixed probe frame. distinct = distinct (formula, frame seed); non-trivial = a "
+            "evaluate_new_data on a fixed probe frame; formulas that use no column of the frame, on frames down to zero "
+            "columns. distinct = distinct (formula, frame seed); non-trivial = a "
             "categorical factor, stateful transform or group term is present."
         ),
         "assumptions": [
